@@ -122,6 +122,55 @@ func init() {
 			runSF(c, baseDG(d[L] == 1, ss...), nil, strings.Join(names, " ; "))
 		}}
 	}
+	// sflow.counts: how MANY - N samples in one datagram (the same sample repeated / cycling through the
+	// alphabet), N unsupported records in front of a supported one in a flow and in a counter sample.
+	spaces["sflow.counts"] = func(tier string) mck.Space {
+		al := sampleAlphabet(true)
+		counts := []int{1, 2, 3, 4, 7, 8, 9, 15, 16, 17, 18, 31, 32, 33, 63, 64, 65, 100, 127, 128, 129, 255, 256, 257, 400}
+		if tier == "thorough" {
+			counts = nil
+			for n := 1; n <= 420; n++ {
+				counts = append(counts, n)
+			}
+		}
+		modes := []string{"same sample", "cycling samples", "unsupported records before a raw header", "unsupported records before generic counters"}
+		dims := mck.Radix{uint64(len(modes)), uint64(len(counts)), uint64(len(al)), 2}
+		return mck.FuncSpace{N: dims.Size(), F: func(idx uint64, c *mck.Ctx) {
+			d := dims.Digits(idx)
+			n := counts[d[1]]
+			var ss []ref.SFSample
+			switch d[0] {
+			case 0:
+				for i := 0; i < n; i++ {
+					ss = append(ss, al[d[2]].s)
+				}
+			case 1:
+				for i := 0; i < n; i++ {
+					ss = append(ss, al[(d[2]+i)%len(al)].s)
+				}
+			case 2, 3:
+				if d[2] != 0 {
+					c.Skip()
+					return
+				}
+				var recs []ref.SFRecord
+				for i := 0; i < n; i++ {
+					recs = append(recs, sfh.Rec("unknown", i%7))
+				}
+				if d[0] == 2 {
+					ss = []ref.SFSample{sfh.FlowSample(0, append(recs, sfh.Rec("raw", 3))...), sfh.CounterSample(0, sfh.Rec("gen", 0))}
+				} else {
+					ss = []ref.SFSample{sfh.CounterSample(0, append(recs, sfh.Rec("gen", 1))...), sfh.FlowSample(0, sfh.Rec("raw", 0))}
+				}
+			}
+			dg := baseDG(d[3] == 1, ss...)
+			if len(dg.Encode()) > 60000 {
+				c.Skip()
+				return
+			}
+			runSF(c, dg, nil, fmt.Sprintf("%s, N=%d (alphabet offset %d)", modes[d[0]], n, d[2]))
+		}}
+	}
 	// sflow.flowrec: one flow sample, all ordered selections of <=3 distinct record types
 	spaces["sflow.flowrec"] = func(tier string) mck.Space {
 		kinds := []string{"raw", "sw", "rt4", "rt6", "unknown", "vendor-std-format"}
